@@ -1120,7 +1120,8 @@ def _run_ctor(case, ck, info):
         nan = float("nan")
         for a, b, g in ((nan, 1.0, None), (0.0, nan, None), (nan, nan, None),
                         (-INF, nan, None), (0.0, 1.0, nan),
-                        (np.float64("nan"), 2.0, None)):
+                        (np.float64("nan"), 2.0, None), (0.0, INF, INF),
+                        (-INF, 0.0, -INF), (-INF, INF, INF)):
             n += 1
             _must_reject(ck, "ctor-rejects-bounds",
                          lambda: Uniform(a, b, g),
@@ -1567,7 +1568,9 @@ def _run_gint(case, ck, info):
             (0, np.int32(65536), [1, 70000, np.int32(-65536)]),
             (np.int64(3), np.int16(300), [np.int16(200), 2.5]),
             (0, 1, [np.int64(2 ** 32), np.int32(5), np.uint8(3)]),
-            (0.0, np.uint16(50000), [np.uint16(60000), 100.0])):
+            (0.0, np.uint16(50000), [np.uint16(60000), 100.0]),
+            (np.uint8(5), 2, [3, np.uint8(3), 7.5]),
+            (np.uint64(100), 3.0, [97, np.uint16(97)])):
         try:
             P = Gaussian(mu, sd)
         except Exception as e:
@@ -1590,7 +1593,27 @@ def _run_gint(case, ck, info):
             ck.true("gaussian-integer-arguments", ok, "Gaussian(%r, %r)."
                     "lnprob(%r) = %r, the log of the density is %r" %
                     (mu, sd, p, got, want))
+            pr = float(P.prob(p))
+            ck.trans += 1
+            ck.true("gaussian-integer-arguments", abs(pr - math.exp(want))
+                    <= 1e-12 * math.exp(want), "Gaussian(%r, %r).prob(%r) = "
+                    "%r, the density is %r" % (mu, sd, p, pr, math.exp(want)))
             acc.append(repr(round(want, 9)))
+    # Uniform priors whose bounds are narrow / unsigned integers
+    from holopy.core.prior import Uniform
+    for lo, hi in ((np.int8(-100), np.int8(100)), (np.uint8(3), np.uint8(250)),
+                   (np.int16(-30000), np.int16(30000)),
+                   (np.int8(-100), 100)):
+        U = Uniform(lo, hi)
+        w = float(hi) - float(lo)
+        mid = float(lo) + w / 2
+        got_p, got_l = float(U.prob(mid)), float(U.lnprob(mid))
+        ck.trans += 2
+        ck.true("uniform-integer-bounds", abs(got_p - 1 / w) <= 1e-12 / w and
+                abs(got_l + math.log(w)) <= 1e-12 and
+                float(U.interval) == w, "Uniform(%r, %r): interval %r, "
+                "prob %r, lnprob %r (width %r)" %
+                (lo, hi, U.interval, got_p, got_l, w))
     return digest(acc)
 
 
